@@ -49,7 +49,7 @@ def s8 (b : BitVec 8) : BitVec 32 := b.signExtend 32
 
 /-! ### one instruction -/
 
-def row (b0 : BitVec 8) : Row6502 := table6502Opcodes.getD b0.toNat ⟨M65XX_ERROR, 0, 0, 0⟩
+def row (b0 : BitVec 8) : Row6502 := table6502Opcodes.toList.getD b0.toNat ⟨M65XX_ERROR, 0, 0, 0⟩
 
 /-- `table_6502[instr].name` -/
 def nameOf (instr : Nat) : List Char := ((names.getD instr ⟨"", 0, 0⟩).name).toList
@@ -58,7 +58,7 @@ def nameOf (instr : Nat) : List Char := ((names.getD instr ⟨"", 0, 0⟩).name)
 def bytesOf (op : Nat) : Nat := opBytes.getD op 0
 
 /-- the return value of `disasm_6502` -/
-def len (b0 : BitVec 8) : Nat := (disasm6502Len.getD b0.toNat 0).toNat
+def len (b0 : BitVec 8) : Nat := (disasm6502Len.toList.getD b0.toNat 0).toNat
 
 /-- `num`: the operand numeral (`char num[8]`) -/
 def numText (addr : BitVec 32) (op : Nat) (b1 b2 : BitVec 8) : List Char :=
@@ -100,26 +100,31 @@ def disasm (addr : BitVec 32) (b0 b1 b2 : BitVec 8) : Dis :=
 
 /-! ### the statement the printed text is to the assembler's token loop -/
 
-/-- The operand the text of a defined opcode spells (numerals are `0x…` literals: the value, zero extended).
-    Branch texts carry `(offset=…)` after the target, which the expression evaluator rejects: `none`. -/
+/-- the operand value the text spells: the 16-bit numeral of a three-byte instruction, else the 8-bit one (numerals
+    are `0x…` literals: the value, zero extended) -/
+def valueOf (op : Nat) (b1 b2 : BitVec 8) : BitVec 32 :=
+  if bytesOf op = 3 then (u8 b2 <<< 8) ||| u8 b1 else u8 b1
+
+/-- the operand notation of a mode; branch texts carry `(offset=…)` after the target, which the expression
+    evaluator rejects: `none` -/
+def operandOf (op : Nat) (v : BitVec 32) : Option Operand :=
+  if bytesOf op ≤ 1 then some .none
+  else if op = M6502_OP_IMMEDIATE then some (.imm .none v)
+  else if op = M6502_OP_ADDRESS8 ∨ op = M6502_OP_ADDRESS16 then some (.addr .none v)
+  else if op = M6502_OP_INDEXED8_X ∨ op = M6502_OP_INDEXED16_X then some (.addrX .none v)
+  else if op = M6502_OP_INDEXED8_Y ∨ op = M6502_OP_INDEXED16_Y then some (.addrY .none v)
+  else if op = M6502_OP_INDIRECT16 ∨ op = M6502_OP_INDIRECT8 then some (.ind .none v)
+  else if op = M6502_OP_X_INDIRECT8 ∨ op = M6502_OP_X_INDIRECT16 then some (.indX .none v)
+  else if op = M6502_OP_INDIRECT8_Y then some (.indY .none v)
+  else none
+
+/-- The statement the text of the instruction is to the assembler's token loop (`none`: an undefined opcode,
+    `??? 0x..`, or a branch text). -/
 def toStmt (b0 b1 b2 : BitVec 8) : Option Stmt :=
-  let r := row b0
-  if r.instr = M65XX_ERROR then none
+  if (row b0).instr = M65XX_ERROR then none
   else
-    let name := (names.getD r.instr ⟨"", 0, 0⟩).name
-    let v8 : BitVec 32 := u8 b1
-    let v16 : BitVec 32 := (u8 b2 <<< 8) ||| u8 b1
-    let v := if bytesOf r.op = 3 then v16 else v8
-    let op := r.op
-    if bytesOf op ≤ 1 then some ⟨name, .s0, .none⟩
-    else if op = M6502_OP_IMMEDIATE then some ⟨name, .s0, .imm .none v⟩
-    else if op = M6502_OP_ADDRESS8 ∨ op = M6502_OP_ADDRESS16 then some ⟨name, .s0, .addr .none v⟩
-    else if op = M6502_OP_INDEXED8_X ∨ op = M6502_OP_INDEXED16_X then some ⟨name, .s0, .addrX .none v⟩
-    else if op = M6502_OP_INDEXED8_Y ∨ op = M6502_OP_INDEXED16_Y then some ⟨name, .s0, .addrY .none v⟩
-    else if op = M6502_OP_INDIRECT16 ∨ op = M6502_OP_INDIRECT8 then some ⟨name, .s0, .ind .none v⟩
-    else if op = M6502_OP_X_INDIRECT8 ∨ op = M6502_OP_X_INDIRECT16 then some ⟨name, .s0, .indX .none v⟩
-    else if op = M6502_OP_INDIRECT8_Y then some ⟨name, .s0, .indY .none v⟩
-    else none
+    (operandOf (row b0).op (valueOf (row b0).op b1 b2)).map
+      (fun o => ⟨(names.getD (row b0).instr ⟨"", 0, 0⟩).name, .s0, o⟩)
 
 /-! ### `disasm_range_6502` -/
 
